@@ -508,16 +508,23 @@ pub fn spell(b: &[u8], t: &mut Tape, noise: u64, query: bool, raw_ok: &[u8]) -> 
     o
 }
 
-pub fn spell_pair(k: &[u8], v: &[u8], t: &mut Tape, noise: u64) -> Vec<u8> {
-    let mut o = spell(k, t, noise, true, RAW_OK_QUERY_NAME);
+/// `extra`: further bytes that may travel raw (a form body is not a URI: white space, quotes and
+/// brackets may appear in it as they are).
+pub fn spell_pair_x(k: &[u8], v: &[u8], t: &mut Tape, noise: u64, extra: &[u8]) -> Vec<u8> {
+    let (rn, rv): (Vec<u8>, Vec<u8>) = ([RAW_OK_QUERY_NAME, extra].concat(), [RAW_OK_QUERY_VALUE, extra].concat());
+    let mut o = spell(k, t, noise, true, &rn);
     if !(v.is_empty() && noise > 0 && !k.is_empty() && t.chance(3)) {
         o.push(b'=');
-        o.extend(spell(v, t, noise, true, RAW_OK_QUERY_VALUE));
+        o.extend(spell(v, t, noise, true, &rv));
     }
     o
 }
 
 pub fn spell_pairs(pairs: &[(Vec<u8>, Vec<u8>)], t: &mut Tape, noise: u64, permute: bool) -> Vec<u8> {
+    spell_pairs_x(pairs, t, noise, permute, b"")
+}
+
+pub fn spell_pairs_x(pairs: &[(Vec<u8>, Vec<u8>)], t: &mut Tape, noise: u64, permute: bool, extra: &[u8]) -> Vec<u8> {
     let mut idx: Vec<usize> = (0..pairs.len()).collect();
     if permute && noise > 0 && pairs.len() > 1 && t.chance(2) {
         // Fisher-Yates; keeps a permutation of the multiset (benign by C10)
@@ -537,7 +544,7 @@ pub fn spell_pairs(pairs: &[(Vec<u8>, Vec<u8>)], t: &mut Tape, noise: u64, permu
                 o.push(b'&');
             }
         }
-        o.extend(spell_pair(&pairs[*i].0, &pairs[*i].1, t, noise));
+        o.extend(spell_pair_x(&pairs[*i].0, &pairs[*i].1, t, noise, extra));
     }
     if noise > 0 && !pairs.is_empty() && t.chance(8) {
         o.push(b'&');
@@ -819,6 +826,10 @@ pub fn render_form_body(pairs: &[(Vec<u8>, Vec<u8>)], t: &mut Tape, noise: u64) 
     if pairs.is_empty() && noise > 0 && t.chance(3) {
         // a non-empty form body that carries no parameter at all
         return vec![b'&'; 1 + t.below(3)];
+    }
+    if noise > 0 && t.chance(3) {
+        // bytes no URI could carry raw
+        return spell_pairs_x(pairs, t, noise, false, b" \n\t\r\"<>[]{}|\\^`#");
     }
     spell_pairs(pairs, t, noise, false)
 }
